@@ -560,6 +560,9 @@ def sweep_cases(rng, tier):
                     continue
                 t = ["sub", "Base"] if rng.random() < 0.7 else ["opt", ["sub", "Base"]]
                 cases.append(make_case(rng, [("m", t, sdf, sv), ("seed", ["opt", "int"], 7, 3)], dict(var)))
+    cases.append(make_case(rng, [("m", ["sub", "Base"], {"class_path": "__main__.Sub", "init_args": {"b": 3, "name": "n"}},
+                                  {"class_path": "__main__.Base", "init_args": {"a": 10, "name": None}})],
+                           {"kind": "dump", "format": "yaml", "skip_none": False, "skip_default": True}))
     # histories: the same parser object dumped (skip_default) before its defaults change; the configuration then sets the OLD default
     for t, d_old, d_new in [("float", {"$f": "0.1"}, {"$f": "0.5"}), ("str", "a", "1e3"), (["opt", "int"], 5, None),
                             (["list", "str"], ["x"], []), (["dict", "int"], {"a": 1}, {"a": 2})]:
